@@ -40,6 +40,10 @@ func runC17(c *Ctx) {
 	callerSliceRules(c, "C17")
 	// the caller's configuration (Dialer.Extensions, Upgrader fields) is not written by a handshake
 	configReadOnlyRules(c, "C17")
+	// ReadFrame / WriteFrame / CompileFrame: the payload read is a fresh allocation of Header.Length bytes
+	if c.headerLayoutOK("C01.anchor") {
+		c01Frames(c)
+	}
 }
 
 func c17UnsafeViews(c *Ctx) {
